@@ -30,6 +30,41 @@ impl Identified for TKey {
     }
 }
 
+/// A key that cannot be encoded (a handle whose material went away): its first field encodes,
+/// its second refuses, so a file-backed insert fails after it has started writing.
+#[derive(Clone, Debug, Deserialize)]
+struct PKey {
+    id: BaseId,
+    serial: u64,
+}
+
+struct Unencodable;
+
+impl Serialize for Unencodable {
+    fn serialize<S: serde::Serializer>(&self, _s: S) -> Result<S::Ok, S::Error> {
+        Err(serde::ser::Error::custom("key material is unavailable"))
+    }
+}
+
+impl Serialize for PKey {
+    fn serialize<S: serde::Serializer>(&self, s: S) -> Result<S::Ok, S::Error> {
+        use serde::ser::SerializeStruct as _;
+        let mut st = s.serialize_struct("PKey", 2)?;
+        st.serialize_field("serial", &self.serial)?;
+        st.serialize_field("body", &Unencodable)?;
+        st.end()
+    }
+}
+
+impl WrappedKey for PKey {}
+
+impl Identified for PKey {
+    type Id = BaseId;
+    fn id(&self) -> Result<BaseId, IdError> {
+        Ok(self.id)
+    }
+}
+
 const N_IDS: usize = 6;
 
 fn ids(rng: &mut Rng) -> Vec<BaseId> {
@@ -64,6 +99,9 @@ enum Op {
     OccupiedRemove(usize),
     /// entry(); occupied -> get then remove
     OccupiedGetRemove(usize),
+    /// entry(); vacant -> insert of a key whose encoding fails (file store only; the in-memory
+    /// store never encodes, it gets an unused entry instead): the id must stay vacant
+    FailedInsert(usize),
     /// drop the fs store and open the directory again
     Reopen,
     /// replace the fs store by `try_clone()` of itself
@@ -82,6 +120,7 @@ impl Op {
             Op::OccupiedGet(..) => "occupied-get-repeated",
             Op::OccupiedRemove(_) => "occupied-remove",
             Op::OccupiedGetRemove(_) => "occupied-get-then-remove",
+            Op::FailedInsert(_) => "entry-insert-unencodable",
             Op::Reopen => "reopen",
             Op::CloneSwap => "try_clone",
         }
@@ -90,7 +129,7 @@ impl Op {
 
 fn gen_op(rng: &mut Rng) -> Op {
     let i = rng.usize(N_IDS);
-    match rng.weighted(&[5, 4, 4, 3, 3, 2, 1, 2, 1, 2, 1]) {
+    match rng.weighted(&[5, 4, 4, 3, 3, 2, 1, 2, 1, 2, 1, 2]) {
         0 => Op::EntryInsert(i),
         1 => Op::EntryDrop(i),
         2 => Op::Get(i),
@@ -101,7 +140,8 @@ fn gen_op(rng: &mut Rng) -> Op {
         7 => Op::OccupiedRemove(i),
         8 => Op::OccupiedGetRemove(i),
         9 => Op::Reopen,
-        _ => Op::CloneSwap,
+        10 => Op::CloneSwap,
+        _ => Op::FailedInsert(i),
     }
 }
 
@@ -132,7 +172,7 @@ fn apply_model(model: &mut BTreeMap<BaseId, TKey>, ids: &[BaseId], op: &Op, fres
                 Out::VacantInserted
             }
         }
-        Op::EntryDrop(i) => {
+        Op::EntryDrop(i) | Op::FailedInsert(i) => {
             if model.contains_key(&ids[*i]) {
                 Out::Occupied
             } else {
@@ -187,6 +227,13 @@ fn apply_store<S: KeyStore>(store: &mut S, ids: &[BaseId], op: &Op, fresh: &TKey
                     drop(o);
                     Out::Occupied
                 }
+            },
+            Op::FailedInsert(i) => match store.entry::<PKey>(ids[*i]).map_err(e("entry"))? {
+                Entry::Vacant(v) => match v.insert(PKey { id: ids[*i], serial: fresh.serial }) {
+                    Err(_) => Out::Vacant,
+                    Ok(()) => return Err(Out::Error("unencodable insert: reported success".into())),
+                },
+                Entry::Occupied(_) => Out::Occupied,
             },
             Op::Get(i) => Out::Got(store.get::<TKey>(ids[*i]).map_err(e("get"))?),
             Op::Remove(i) => Out::Removed(store.remove::<TKey>(ids[*i]).map_err(e("remove"))?),
@@ -332,7 +379,11 @@ fn run_history(m: &mut Monitor, hist_seed: u64, len: usize) {
             }
             _ => {}
         }
-        let got_mem = apply_store(&mut mem, &ids, &op, &fresh);
+        let mem_op = match &op {
+            Op::FailedInsert(i) => Op::EntryDrop(*i),
+            o => o.clone(),
+        };
+        let got_mem = apply_store(&mut mem, &ids, &mem_op, &fresh);
         let got_fs = apply_store(&mut fs, &ids, &op, &fresh);
         let mut mismatch = false;
         for (store, got) in [("memstore", &got_mem), ("fs-store", &got_fs)] {
@@ -367,7 +418,7 @@ fn run_history(m: &mut Monitor, hist_seed: u64, len: usize) {
         }
 
         // directory contents: after a dropped vacant entry and after a reopen (and, cheaply, always)
-        let must_list = matches!(op, Op::Reopen | Op::CloneSwap) || (matches!(op, Op::EntryDrop(_)) && want == Out::Vacant);
+        let must_list = matches!(op, Op::Reopen | Op::CloneSwap) || (matches!(op, Op::EntryDrop(_) | Op::FailedInsert(_)) && want == Out::Vacant);
         if must_list || step % 8 == 7 || step + 1 == len {
             let expect: BTreeSet<String> = model.keys().map(|i| i.to_string()).collect();
             match listing(&dir) {
@@ -383,11 +434,16 @@ fn run_history(m: &mut Monitor, hist_seed: u64, len: usize) {
                     if matches!(op, Op::EntryDrop(_)) && want == Out::Vacant {
                         m.count("listings_after_vacant_drop", 1);
                     }
+                    if matches!(op, Op::FailedInsert(_)) && want == Out::Vacant {
+                        m.count("listings_after_failed_insert", 1);
+                    }
                     if matches!(op, Op::Reopen | Op::CloneSwap) {
                         m.count("listings_after_reopen", 1);
                     }
                     if names != expect {
-                        let sig = if matches!(op, Op::EntryDrop(_)) {
+                        let sig = if matches!(op, Op::FailedInsert(_)) {
+                            "fs-directory-differs-after-failed-insert"
+                        } else if matches!(op, Op::EntryDrop(_)) {
                             "fs-directory-differs-after-vacant-drop"
                         } else if matches!(op, Op::Reopen | Op::CloneSwap) {
                             "fs-directory-differs-after-reopen"
@@ -442,7 +498,7 @@ fn main() {
         "C45",
         "history = random sequence (40..240 ops) over 6 ids (all-zero, all-ff, leading zeros, random) of: entry->insert if \
          vacant, entry->drop unused (vacant or occupied), get, remove, try_insert, occupied entry get (once / twice), occupied \
-         remove, occupied get then remove, reopen (drop + Store::open on the same directory), try_clone swap; applied in \
+         remove, occupied get then remove, entry->insert of a key whose encoding fails part-way (fs store; the id must stay vacant and no file may stay), reopen (drop + Store::open on the same directory), try_clone swap; applied in \
          lockstep to MemStore, fs Store (scratch dir on tmpfs) and a BTreeMap model; every result (vacant/occupied, returned \
          key by value, AlreadyExists) is compared; after every dropped vacant entry, every reopen, every 8th step and at the \
          end the directory listing must be exactly the model's ids (the store's own `__canary` file ignored); after reopen all \
@@ -454,6 +510,7 @@ fn main() {
     .require("op:occupied-get", "occupied entry reads")
     .require("op:occupied-remove", "occupied entry removes")
     .require("op:try_insert", "try_insert")
+    .require("listings_after_failed_insert", "failed inserts on vacant ids must have been followed by a listing")
     .require("ops_on_vacant_id", "vacant branch")
     .require("ops_on_occupied_id", "occupied branch");
 
